@@ -1502,6 +1502,439 @@ Proof.
 Qed.
 
 (* ------------------------------------------------------------------ *)
+(* 2 (continued): the leader invariant through every handler of the node *)
+
+Definition LInv (r : raft) : Prop := r_state r = Leader -> ConfBound r.
+
+Lemma fr_LInv r r' : fr r r' -> LInv r -> LInv r'.
+Proof.
+  intros Hf H Hs. eapply fr_ConfBound; [exact Hf|]. apply H. destruct Hf as (E & _). congruence.
+Qed.
+
+Lemma not_leader_LInv r : r_state r <> Leader -> LInv r.
+Proof. intros H Hs. contradiction. Qed.
+
+Lemma fr_LogBounded r r' : fr r r' -> LogBounded (r_log r) -> LogBounded (r_log r').
+Proof. intros (_ & _ & H & _). apply LogBounded_same_ents; exact H. Qed.
+
+(* --- leader-side handlers only send messages and touch progress / commit --- *)
+
+Lemma handle_append_response_fr r m r' : handle_append_response r m = Ok r' -> fr r r'.
+Proof.
+  unfold handle_append_response. intros H. inv_bind H. clear Hx.
+  destruct (get_pr r (m_from m)) as [pr|]; [|inversion H; apply fr_refl].
+  destruct (m_reject m).
+  { destruct (maybe_decr_to _ _ _ _) as [pr1 dec]. destruct dec.
+    - eapply fr_trans; [apply put_pr_fr|eapply send_append_to_fr; exact H].
+    - inversion H; subst. apply put_pr_fr. }
+  destruct (maybe_update _ _) as [pr1 upd]. destruct upd; cbn [negb] in H.
+  2:{ inversion H; subst. apply put_pr_fr. }
+  inv_bind H. clear Hx. inv_bind H. destruct x1 as [r1 cmt].
+  apply maybe_commit_fr in Hx. inv_bind H. inv_bind H.
+  assert (H01 : fr r r1) by (eapply fr_trans; [apply put_pr_fr|exact Hx]).
+  assert (H12 : fr r1 x1).
+  { destruct cmt.
+    - destruct (should_bcast_commit r1); [eapply bcast_append_fr; eassumption|].
+      inversion Hx0; subst; apply fr_refl.
+    - destruct (is_paused _); [eapply send_append_to_fr; eassumption|].
+      inversion Hx0; subst; apply fr_refl. }
+  apply send_append_aggressively_fr in Hx1.
+  assert (H03 : fr r x2) by (eapply fr_trans; [exact H01|eapply fr_trans; eassumption]).
+  eapply fr_trans; [exact H03|].
+  destruct (r_lead_transferee x2); [|inversion H; subst; apply fr_refl].
+  destruct (n =? m_from m); [|inversion H; subst; apply fr_refl].
+  destruct (get_pr x2 (m_from m)); [|discriminate].
+  destruct (matched p =? last_index (r_log x2)); [eapply send_timeout_now_fr; exact H|].
+  inversion H; subst; apply fr_refl.
+Qed.
+
+Lemma set_read_only_fr r ro : fr r (r <| r_read_only := ro |>).
+Proof. fr_solve. Qed.
+
+Lemma handle_heartbeat_response_fr r m r' : handle_heartbeat_response r m = Ok r' -> fr r r'.
+Proof.
+  unfold handle_heartbeat_response. intros H.
+  destruct (get_pr r (m_from m)) as [pr|]; [|inversion H; apply fr_refl].
+  inv_bind H. clear Hx. inv_bind H.
+  assert (H01 : fr r x0).
+  { match type of Hx with (if ?c then _ else _) = _ => destruct c end.
+    - inv_bind Hx. destruct x1 as [[ra pa] ba]. inversion Hx; subst.
+      eapply fr_trans; [eapply maybe_send_append_fr; eassumption|apply put_pr_fr].
+    - inversion Hx; subst. apply put_pr_fr. }
+  eapply fr_trans; [exact H01|].
+  match type of H with (if ?c then _ else _) = _ => destruct c end; [inversion H; subst; apply fr_refl|].
+  destruct (ro_recv_ack _ _ _) as [ro' acks].
+  destruct acks as [a|]; [|inversion H; subst; apply set_read_only_fr].
+  match type of H with (if ?c then _ else _) = _ => destruct c end;
+    [|inversion H; subst; apply set_read_only_fr].
+  inv_bind H. destruct x1 as [ro2 rss]. apply respond_reads_fr in H.
+  eapply fr_trans; [|exact H]. fr_solve.
+Qed.
+
+Lemma handle_transfer_leader_fr r m r' : handle_transfer_leader r m = Ok r' -> fr r r'.
+Proof.
+  unfold handle_transfer_leader. intros H.
+  destruct (get_pr r (m_from m)); [|inversion H; apply fr_refl].
+  destruct (IdSet.mem (m_from m) (learners (conf_of r))); [inversion H; apply fr_refl|].
+  assert (Hcont : forall ra, fr r ra ->
+    (if m_from m =? r_id ra then Ok ra else
+       match get_pr (ra <| r_election_elapsed := 0 |> <| r_lead_transferee := Some (m_from m) |>) (m_from m) with
+       | None => Panic site_pr_unwrap
+       | Some pr =>
+           if matched pr =? last_index (r_log (ra <| r_election_elapsed := 0 |> <| r_lead_transferee := Some (m_from m) |>))
+           then send_timeout_now (ra <| r_election_elapsed := 0 |> <| r_lead_transferee := Some (m_from m) |>) (m_from m)
+           else
+             y <- maybe_send_append (ra <| r_election_elapsed := 0 |> <| r_lead_transferee := Some (m_from m) |>) (m_from m) pr true ;;
+             let '(r', pr', _) := y in Ok (put_pr r' (m_from m) pr')
+       end) = Ok r' -> fr r r').
+  { intros ra Hra Hc. destruct (m_from m =? r_id ra). { inversion Hc; subst; exact Hra. }
+    eapply fr_trans; [exact Hra|].
+    assert (Hset : fr ra (ra <| r_election_elapsed := 0 |> <| r_lead_transferee := Some (m_from m) |>))
+      by fr_solve.
+    eapply fr_trans; [exact Hset|].
+    match type of Hc with match ?g with _ => _ end = _ => destruct g end; [|discriminate].
+    match type of Hc with (if ?c then _ else _) = _ => destruct c end.
+    - eapply send_timeout_now_fr; exact Hc.
+    - inv_bind Hc. destruct x as [[rb pb] bb]. inversion Hc; subst.
+      eapply fr_trans; [eapply maybe_send_append_fr; eassumption|apply put_pr_fr]. }
+  destruct (r_lead_transferee r) as [last|].
+  - destruct (last =? m_from m); [inversion H; apply fr_refl|].
+    eapply Hcont; [|exact H]. fr_solve.
+  - eapply Hcont; [apply fr_refl|exact H].
+Qed.
+
+Lemma handle_snapshot_status_fr r m r' : handle_snapshot_status r m = Ok r' -> fr r r'.
+Proof.
+  unfold handle_snapshot_status. intros H.
+  destruct (get_pr r (m_from m)); [|inversion H; apply fr_refl].
+  destruct (negb _); inversion H; subst; [apply fr_refl|apply put_pr_fr].
+Qed.
+
+Lemma handle_unreachable_fr r m r' : handle_unreachable r m = Ok r' -> fr r r'.
+Proof.
+  unfold handle_unreachable. intros H.
+  destruct (get_pr r (m_from m)); inversion H; subst; [|apply fr_refl].
+  destruct (pstate_eqb _ _); [apply put_pr_fr|apply fr_refl].
+Qed.
+
+Lemma step_leader_other r m r' c :
+  (m_type m =? MsgPropose) = false -> step_leader r m = Ok (r', c) ->
+  fr r r' \/ r_state r' = Follower.
+Proof.
+  intros Hnp H. unfold step_leader in H. rewrite Hnp in H.
+  destruct (m_type m =? MsgBeat).
+  { inv_bind H. inversion H; subst. left. eapply bcast_heartbeat_fr; eassumption. }
+  destruct (m_type m =? MsgCheckQuorum).
+  { destruct (quorum_recently_active (r_prs r) (r_id r)) as [prs' active] eqn:Eq.
+    assert (Hprs : fr r (r <| r_prs := prs' |>)).
+    { unfold quorum_recently_active in Eq. inversion Eq; subst. fr_solve. }
+    destruct active; cbn [negb] in H.
+    - inversion H; subst. left. exact Hprs.
+    - inv_bind H. inversion H; subst. right.
+      apply become_follower_fields in Hx. apply Hx. }
+  destruct (m_type m =? MsgReadIndex).
+  { inv_bind H. destruct x; cbn [negb] in H; [|inversion H; subst; left; apply fr_refl].
+    assert (Hnow : forall rr cc,
+      (x <- handle_ready_read_index r m (committed (r_log r)) ;;
+       let '(r1, om) := x in
+       r2 <- match om with Some mm => send r1 mm | None => Ok r1 end ;; Ok (r2, E_OK)) = Ok (rr, cc) ->
+      fr r rr).
+    { intros rr cc Hn. inv_bind Hn. destruct x as [r1 om]. inv_bind Hn. inversion Hn; subst.
+      apply handle_ready_read_index_fr in Hx0. eapply fr_trans; [exact Hx0|].
+      destruct om; [eapply send_fr; eassumption|inversion Hx1; subst; apply fr_refl]. }
+    match type of H with (if ?c then _ else _) = _ => destruct c end; [left; eapply Hnow; exact H|].
+    destruct (ro_option (r_read_only r) =? 0); [|left; eapply Hnow; exact H].
+    inv_bind H. inv_bind H. inv_bind H. inversion H; subst. left.
+    eapply fr_trans; [apply set_read_only_fr|]. eapply bcast_heartbeat_with_ctx_fr; eassumption. }
+  destruct (m_type m =? MsgAppendResponse).
+  { inv_bind H. inversion H; subst. left. eapply handle_append_response_fr; eassumption. }
+  destruct (m_type m =? MsgHeartbeatResponse).
+  { inv_bind H. inversion H; subst. left. eapply handle_heartbeat_response_fr; eassumption. }
+  destruct (m_type m =? MsgSnapStatus).
+  { inv_bind H. inversion H; subst. left. eapply handle_snapshot_status_fr; eassumption. }
+  destruct (m_type m =? MsgUnreachable).
+  { inv_bind H. inversion H; subst. left. eapply handle_unreachable_fr; eassumption. }
+  destruct (m_type m =? MsgTransferLeader).
+  { inv_bind H. inversion H; subst. left. eapply handle_transfer_leader_fr; eassumption. }
+  inversion H; subst. left. apply fr_refl.
+Qed.
+
+Lemma step_leader_LInv r m r' c :
+  step_leader r m = Ok (r', c) -> ConfBound r -> r_state r = Leader -> LInv r'.
+Proof.
+  intros H Hcb Hs. destruct (m_type m =? MsgPropose) eqn:Ep.
+  - apply N.eqb_eq in Ep. intros _. eapply step_leader_propose_ConfBound; eassumption.
+  - destruct (step_leader_other _ _ _ _ Ep H) as [Hf|Hf].
+    + eapply fr_LInv; [exact Hf|]. intros _; exact Hcb.
+    + apply not_leader_LInv. congruence.
+Qed.
+
+(* --- follower-side handlers: the role is kept (or becomes Follower) --- *)
+
+Lemma send_state r m r' : send r m = Ok r' -> r_state r' = r_state r.
+Proof. intros H. apply send_fr in H. apply H. Qed.
+
+Lemma send_request_snapshot_fr r r' : send_request_snapshot r = Ok r' -> fr r r'.
+Proof.
+  unfold send_request_snapshot. intros H. inv_bind H. destruct x; [|discriminate].
+  eapply send_fr; exact H.
+Qed.
+
+Lemma handle_append_entries_state r m r' :
+  handle_append_entries r m = Ok r' -> r_state r' = r_state r.
+Proof.
+  unfold handle_append_entries. intros H.
+  destruct (negb (r_pending_request_snapshot r =? INVALID_INDEX)).
+  { apply send_request_snapshot_fr in H. apply H. }
+  destruct (m_index m <? committed (r_log r)). { apply send_state in H. exact H. }
+  inv_bind H. destruct x as [l' res]. destruct res as [[a b]|].
+  - apply send_state in H. exact H.
+  - inv_bind H. destruct x as [hi [ht|]]; [|discriminate]. apply send_state in H. exact H.
+Qed.
+
+Lemma handle_heartbeat_state r m r' : handle_heartbeat r m = Ok r' -> r_state r' = r_state r.
+Proof.
+  unfold handle_heartbeat. intros H. inv_bind H.
+  match type of H with (if ?c then _ else _) = _ => destruct c end.
+  - apply send_request_snapshot_fr in H. apply H.
+  - apply send_state in H. exact H.
+Qed.
+
+Lemma restore_state r s r' b :
+  restore r s = Ok (r', b) -> r_state r' = r_state r \/ r_state r' = Follower.
+Proof.
+  unfold restore. intros H.
+  destruct (s_index s <? committed (r_log r)); [inversion H; auto|].
+  destruct (negb (role_eqb (r_state r) Follower)).
+  { inv_bind H. inversion H; subst. right. apply become_follower_fields in Hx. apply Hx. }
+  match type of H with (if ?c then _ else _) = _ => destruct c end; [inversion H; auto|].
+  inv_bind H.
+  match type of H with (if ?c then _ else _) = _ => destruct c end.
+  { inv_bind H. inversion H; subst. auto. }
+  inv_bind H.
+  destruct (ConfChange.restore empty_tracker (s_cs s)) as [[c' ids']|e]; [|discriminate].
+  inv_bind H. destruct x1 as [r1 new_cs].
+  destruct (negb (conf_state_eq (s_cs s) new_cs)); [discriminate|].
+  destruct (get_pr r1 (r_id r1)); [|discriminate].
+  destruct (next_idx p =? 0); [discriminate|]. inversion H; subst.
+  apply post_conf_change_spec in Hx1. destruct Hx1 as [_ (Hs & _)]. left. exact Hs.
+Qed.
+
+Lemma handle_snapshot_state r m r' :
+  handle_snapshot r m = Ok r' -> r_state r' = r_state r \/ r_state r' = Follower.
+Proof.
+  unfold handle_snapshot. intros H. inv_bind H. destruct x as [r1 ok].
+  apply restore_state in Hx.
+  assert (Hs : r_state r' = r_state r1) by (destruct ok; apply send_state in H; exact H).
+  rewrite Hs. exact Hx.
+Qed.
+
+(* --- the campaign path --- *)
+
+Lemma become_candidate_fields r r' :
+  become_candidate r = Ok r' ->
+  r_state r' = Candidate /\ r_log r' = r_log r /\ r_state r <> Leader.
+Proof.
+  unfold become_candidate, is_leader. intros H.
+  destruct (role_eqb (r_state r) Leader) eqn:E; [discriminate|].
+  inv_bind H. inversion H; subst. apply reset_fields in Hx. destruct Hx as (_ & _ & Hl & _).
+  cbn. split; [reflexivity|]. split; [exact Hl|]. intros E'. rewrite E' in E. discriminate.
+Qed.
+
+Lemma become_pre_candidate_fields r r' :
+  become_pre_candidate r = Ok r' ->
+  r_state r' = PreCandidate /\ r_log r' = r_log r.
+Proof.
+  unfold become_pre_candidate. intros H. destruct (is_leader r); [discriminate|].
+  inversion H; subst. split; reflexivity.
+Qed.
+
+Lemma send_vote_requests_fr ids : forall r vm t cm ct tr r',
+  send_vote_requests ids r vm t cm ct tr = Ok r' -> fr r r'.
+Proof.
+  induction ids as [|id rest IH]; intros r vm t cm ct tr r' H.
+  { inversion H; subst. apply fr_refl. }
+  cbn [send_vote_requests] in H. destruct (id =? r_id r). { eapply IH; exact H. }
+  inv_bind H. inv_bind H. eapply fr_trans; [eapply send_fr; eassumption|eapply IH; exact H].
+Qed.
+
+Lemma poll_gen_LInv rc r from v r' res :
+  poll_gen rc r from v = Ok (r', res) ->
+  r_state r <> Leader -> LogBounded (r_log r) ->
+  (forall ra ra', rc ra = Ok ra' -> r_state ra <> Leader -> LogBounded (r_log ra) -> LInv ra') ->
+  LInv r' /\ (res <> VoteWon -> r_state r' <> Leader).
+Proof.
+  unfold poll_gen. intros H Hs Hb Hrc.
+  set (r0 := r <| r_prs := (r_prs r) <| t_votes := Quorum.record_vote (t_votes (r_prs r)) from v |> |>) in *.
+  assert (Hs0 : r_state r0 = r_state r) by reflexivity.
+  assert (Hl0 : r_log r0 = r_log r) by reflexivity.
+  destruct (Quorum.tracker_vote_result _ _ _) eqn:Ev.
+  - inversion H; subst. split; [apply not_leader_LInv|intros _]; rewrite Hs0; exact Hs.
+  - inv_bind H. inversion H; subst. apply become_follower_fields in Hx. destruct Hx as (Hf & _).
+    split; [apply not_leader_LInv|intros _]; congruence.
+  - destruct (role_eqb (r_state r0) PreCandidate).
+    + inv_bind H. inversion H; subst. split; [|congruence].
+      eapply Hrc; [exact Hx|rewrite Hs0; exact Hs|rewrite Hl0; exact Hb].
+    + inv_bind H. inv_bind H. inversion H; subst. split; [|congruence].
+      apply become_leader_ConfBound in Hx; [|rewrite Hl0; exact Hb]. destruct Hx as [Hcb _].
+      apply bcast_append_fr in Hx0. intros _. eapply fr_ConfBound; eassumption.
+Qed.
+
+Lemma campaign_real_LInv tr r r' :
+  campaign_real tr r = Ok r' -> LogBounded (r_log r) -> LInv r'.
+Proof.
+  unfold campaign_real. intros H Hb. inv_bind H. apply become_candidate_fields in Hx.
+  destruct Hx as (Hs & Hl & _). inv_bind H. destruct x0 as [r2 res].
+  apply poll_gen_LInv in Hx; [|congruence|rewrite Hl; exact Hb|intros ra ra' Hp; discriminate].
+  destruct Hx as [Hinv Hnw].
+  destruct res.
+  - inv_bind H. apply send_vote_requests_fr in H. eapply fr_LInv; [exact H|exact Hinv].
+  - inv_bind H. apply send_vote_requests_fr in H. eapply fr_LInv; [exact H|exact Hinv].
+  - inversion H; subst. exact Hinv.
+Qed.
+
+Lemma campaign_pre_LInv r r' :
+  campaign_pre r = Ok r' -> LogBounded (r_log r) -> LInv r'.
+Proof.
+  unfold campaign_pre, poll. intros H Hb. inv_bind H. apply become_pre_candidate_fields in Hx.
+  destruct Hx as (Hs & Hl). inv_bind H. destruct x0 as [r2 res].
+  apply poll_gen_LInv in Hx; [|congruence|rewrite Hl; exact Hb|].
+  2:{ intros ra ra' Hc _ Hba. eapply campaign_real_LInv; eassumption. }
+  destruct Hx as [Hinv Hnw].
+  destruct res.
+  - inv_bind H. apply send_vote_requests_fr in H. eapply fr_LInv; [exact H|exact Hinv].
+  - inv_bind H. apply send_vote_requests_fr in H. eapply fr_LInv; [exact H|exact Hinv].
+  - inversion H; subst. exact Hinv.
+Qed.
+
+Lemma hup_LInv r tl r' :
+  hup r tl = Ok r' -> LogBounded (r_log r) -> LInv r -> LInv r'.
+Proof.
+  intros H Hb Hinv. apply hup_spec in H.
+  destruct H as [[_ ->]|[(_ & _ & ->)|(_ & _ & Hc)]]; try exact Hinv.
+  unfold hup_campaign in Hc. destruct tl; [eapply campaign_real_LInv; eassumption|].
+  destruct (r_pre_vote r); [eapply campaign_pre_LInv|eapply campaign_real_LInv]; eassumption.
+Qed.
+
+Lemma maybe_commit_by_vote_LInv r m r' :
+  maybe_commit_by_vote r m = Ok r' -> LInv r -> LInv r'.
+Proof.
+  intros H Hinv. apply maybe_commit_by_vote_spec in H.
+  destruct H as [-> |(l' & b & _ & _ & _ & Hnl & _ & [-> |(_ & _ & _ & Hbf)])]; [exact Hinv| |].
+  - apply not_leader_LInv. cbn. unfold is_leader in Hnl. intros E. rewrite E in Hnl. discriminate.
+  - apply become_follower_fields in Hbf. apply not_leader_LInv. destruct Hbf as (E & _). congruence.
+Qed.
+
+Lemma poll_LInv r from v r' res :
+  poll r from v = Ok (r', res) -> r_state r <> Leader -> LogBounded (r_log r) -> LInv r'.
+Proof.
+  unfold poll. intros H Hs Hb. apply poll_gen_LInv in H; [apply H|exact Hs|exact Hb|].
+  intros ra ra' Hc _ Hba. eapply campaign_real_LInv; eassumption.
+Qed.
+
+Lemma step_candidate_LInv r m r' c :
+  step_candidate r m = Ok (r', c) -> r_state r <> Leader -> LogBounded (r_log r) -> LInv r'.
+Proof.
+  unfold step_candidate. intros H Hs Hb.
+  destruct (m_type m =? MsgPropose). { inversion H; subst. apply not_leader_LInv; exact Hs. }
+  match type of H with (if ?c then _ else _) = _ => destruct c end.
+  { destruct (negb (r_term r =? m_term m)); [discriminate|].
+    inv_bind H. apply become_follower_fields in Hx. destruct Hx as (Hf & _).
+    inv_bind H. inversion H; subst. apply not_leader_LInv.
+    destruct (m_type m =? MsgAppend).
+    - apply handle_append_entries_state in Hx. congruence.
+    - destruct (m_type m =? MsgHeartbeat).
+      + apply handle_heartbeat_state in Hx. congruence.
+      + apply handle_snapshot_state in Hx. destruct Hx; congruence. }
+  match type of H with (if ?c then _ else _) = _ => destruct c end.
+  2:{ inversion H; subst. apply not_leader_LInv; exact Hs. }
+  match type of H with (if ?c then _ else _) = _ => destruct c end.
+  { inversion H; subst. apply not_leader_LInv; exact Hs. }
+  inv_bind H. destruct x as [r1 res]. inv_bind H. inversion H; subst. cbn [fst] in Hx0.
+  eapply maybe_commit_by_vote_LInv; [exact Hx0|]. eapply poll_LInv; eassumption.
+Qed.
+
+Lemma step_follower_LInv r m r' c :
+  step_follower r m = Ok (r', c) -> r_state r <> Leader -> LogBounded (r_log r) -> LInv r'.
+Proof.
+  unfold step_follower. intros H Hs Hb.
+  assert (Hfwd : forall rr mm, send r mm = Ok rr -> LInv rr).
+  { intros rr mm Hsd. apply send_state in Hsd. apply not_leader_LInv. congruence. }
+  destruct (m_type m =? MsgPropose).
+  { destruct (r_leader_id r =? INVALID_ID); [inversion H; subst; apply not_leader_LInv; exact Hs|].
+    destruct (r_disable_proposal_forwarding r); [inversion H; subst; apply not_leader_LInv; exact Hs|].
+    inv_bind H. inversion H; subst. eapply Hfwd; eassumption. }
+  destruct (m_type m =? MsgAppend).
+  { inv_bind H. inversion H; subst. apply handle_append_entries_state in Hx.
+    apply not_leader_LInv. cbn in Hx. congruence. }
+  destruct (m_type m =? MsgHeartbeat).
+  { inv_bind H. inversion H; subst. apply handle_heartbeat_state in Hx.
+    apply not_leader_LInv. cbn in Hx. congruence. }
+  destruct (m_type m =? MsgSnapshot).
+  { inv_bind H. inversion H; subst. apply handle_snapshot_state in Hx.
+    apply not_leader_LInv. cbn in Hx. destruct Hx; congruence. }
+  destruct (m_type m =? MsgTransferLeader).
+  { destruct (r_leader_id r =? INVALID_ID); [inversion H; subst; apply not_leader_LInv; exact Hs|].
+    inv_bind H. inversion H; subst. eapply Hfwd; eassumption. }
+  destruct (m_type m =? MsgTimeoutNow).
+  { destruct (r_promotable r); [|inversion H; subst; apply not_leader_LInv; exact Hs].
+    inv_bind H. inversion H; subst. eapply hup_LInv; [exact Hx|exact Hb|apply not_leader_LInv; exact Hs]. }
+  destruct (m_type m =? MsgReadIndex).
+  { destruct (r_leader_id r =? INVALID_ID); [inversion H; subst; apply not_leader_LInv; exact Hs|].
+    inv_bind H. inversion H; subst. eapply Hfwd; eassumption. }
+  destruct (m_type m =? MsgReadIndexResp).
+  { destruct (m_entries m) as [|e [|e2 rest]]; try (inversion H; subst; apply not_leader_LInv; exact Hs).
+    inv_bind H. inversion H; subst. apply not_leader_LInv. cbn. exact Hs. }
+  inversion H; subst. apply not_leader_LInv; exact Hs.
+Qed.
+
+(* C09: Raft::step keeps the leader invariant, for every state and every message *)
+Theorem step_LInv r m r' c :
+  step r m = Ok (r', c) -> LogBounded (r_log r) -> LInv r -> LInv r'.
+Proof.
+  intros H Hb Hinv. unfold step in H. inv_bind H.
+  assert (Hpre : match x with
+                 | inl (r1, _) => LInv r1
+                 | inr r1 => LInv r1 /\ LogBounded (r_log r1)
+                 end).
+  { clear H.
+    assert (Hbf : forall t l r1, become_follower r t l = Ok r1 -> LInv r1 /\ LogBounded (r_log r1)).
+    { intros t l r1 Hf. apply become_follower_fields in Hf. destruct Hf as (Hs & _ & Hl & _).
+      split; [apply not_leader_LInv; congruence|].
+      rewrite Hl. eapply LogBounded_same_ents; [apply same_ents_set_limit|exact Hb]. }
+    destruct (m_term m =? 0); [inversion Hx; auto|].
+    destruct (r_term r <? m_term m).
+    - match type of Hx with (if ?c then _ else _) = _ => destruct c end; [inversion Hx; exact Hinv|].
+      match type of Hx with (if ?c then _ else _) = _ => destruct c end; [inversion Hx; auto|].
+      match type of Hx with (if ?c then _ else _) = _ => destruct c end;
+        inv_bind Hx; inversion Hx; subst; eapply Hbf; eassumption.
+    - destruct (m_term m <? r_term r); [|inversion Hx; auto].
+      match type of Hx with (if ?c then _ else _) = _ => destruct c end.
+      + inv_bind Hx. inversion Hx; subst. eapply fr_LInv; [eapply send_fr; eassumption|exact Hinv].
+      + match type of Hx with (if ?c then _ else _) = _ => destruct c end.
+        * inv_bind Hx. inversion Hx; subst. eapply fr_LInv; [eapply send_fr; eassumption|exact Hinv].
+        * inversion Hx; subst. exact Hinv. }
+  destruct x as [[r1 c1]|r1]. { inversion H; subst. exact Hpre. }
+  destruct Hpre as [Hinv1 Hb1]. clear Hx Hinv Hb.
+  destruct (m_type m =? MsgHup).
+  { inv_bind H. inversion H; subst. eapply hup_LInv; eassumption. }
+  match type of H with (if ?c then _ else _) = _ => destruct c end.
+  { inv_bind H. inv_bind H.
+    match type of H with (if ?c then _ else _) = _ => destruct c end.
+    - inv_bind H. apply send_fr in Hx1.
+      destruct (m_type m =? MsgRequestVote); inversion H; subst.
+      + eapply fr_LInv; [|exact Hinv1]. eapply fr_trans; [exact Hx1|]. fr_solve.
+      + eapply fr_LInv; eassumption.
+    - inv_bind H. inv_bind H. inv_bind H. inversion H; subst. apply send_fr in Hx2.
+      eapply maybe_commit_by_vote_LInv; [eassumption|]. eapply fr_LInv; eassumption. }
+  destruct (r_state r1) eqn:Es.
+  - eapply step_follower_LInv; [exact H|congruence|exact Hb1].
+  - eapply step_candidate_LInv; [exact H|congruence|exact Hb1].
+  - eapply step_leader_LInv; [exact H|apply Hinv1; exact Es|exact Es].
+  - eapply step_candidate_LInv; [exact H|congruence|exact Hb1].
+Qed.
+
+(* ------------------------------------------------------------------ *)
 (* 1 (assembled): the complete characterisation of the proposal filter *)
 Theorem propose_filter r ents info i r' ents' ok :
   filter_conf_changes r ents info i = (r', ents', ok) ->
